@@ -62,3 +62,16 @@ pub proof fn thm_c12_only_low_flag_bit_matters(v: u8)
 {
     assert(((v & 1u8) == 1u8) == (v % 2 == 1)) by (bit_vector);
 }
+
+// C12: TraceId / SpanId round-trip through Display / FromStr as fixed-width lower-case hex: what
+// Display writes (hexw(v, 32) resp. hexw(v, 16), contracts above) satisfies FromStr's Ok condition
+// and parses back to v.
+pub proof fn thm_c12_id_text_round_trip(t: u128, s: u64)
+    ensures
+        fits(hexw(t as nat, 32), u128::MAX as nat) && hexval(hexw(t as nat, 32))->Some_0 == t as nat && hexw(t as nat, 32).len() == 32,
+        fits(hexw(s as nat, 16), u64::MAX as nat) && hexval(hexw(s as nat, 16))->Some_0 == s as nat && hexw(s as nat, 16).len() == 16,
+{
+    lemma_pow16_values();
+    axiom_hexw_parses_back(t as nat, 32);
+    axiom_hexw_parses_back(s as nat, 16);
+}
